@@ -326,6 +326,10 @@ func findResultKeys(r resultList) ([]key, error) {
 		case resultSingle:
 			keys = append(keys, key{t: innerResult.Type, name: innerResult.Name})
 		case resultGrouped:
+			if innerResult.Flatten {
+				return nil, newErrInvalidInput(fmt.Sprintf(
+					"cannot use flatten in decorator results: a decorator must return the entire value group %q as a slice", innerResult.Group), nil)
+			}
 			if innerResult.Type.Kind() != reflect.Slice {
 				return nil, newErrInvalidInput("decorating a value group requires decorating the entire value group, not a single value", nil)
 			}
